@@ -12,6 +12,7 @@ pub mod c08;
 pub mod c09;
 pub mod c10;
 pub mod c11;
+pub mod c12;
 
 pub fn get(id: &str) -> Option<PropertyDef> {
     match id {
@@ -26,6 +27,7 @@ pub fn get(id: &str) -> Option<PropertyDef> {
         "C09" => Some(c09::def()),
         "C10" => Some(c10::def()),
         "C11" => Some(c11::def()),
+        "C12" => Some(c12::def()),
         _ => None,
     }
 }
